@@ -2,7 +2,7 @@ use std::{fmt, io};
 
 use bitflags::bitflags;
 use bytes::{Bytes, BytesMut};
-use http::{Method, Version};
+use http::{Method, StatusCode, Version};
 use tokio_util::codec::{Decoder, Encoder};
 
 use super::{
@@ -21,6 +21,7 @@ bitflags! {
         const HEAD               = 0b0000_0001;
         const KEEP_ALIVE_ENABLED = 0b0000_1000;
         const STREAM             = 0b0001_0000;
+        const BODILESS_STATUS    = 0b0010_0000;
     }
 }
 
@@ -147,6 +148,14 @@ impl Decoder for ClientCodec {
                 self.inner.conn_type = ConnectionType::Close;
             }
 
+            // 1xx, 204 and 304 responses end at their head, whatever their headers announce
+            self.inner.flags.set(
+                Flags::BODILESS_STATUS,
+                req.status.is_informational()
+                    || req.status == StatusCode::NO_CONTENT
+                    || req.status == StatusCode::NOT_MODIFIED,
+            );
+
             if !self.inner.flags.contains(Flags::HEAD) {
                 match payload {
                     PayloadType::None => self.inner.payload = None,
@@ -188,6 +197,23 @@ impl Decoder for ClientPayloadCodec {
             }
             None => None,
         })
+    }
+
+    fn decode_eof(&mut self, src: &mut BytesMut) -> Result<Option<Self::Item>, Self::Error> {
+        // the body was already delivered completely
+        if self.inner.payload.is_none() {
+            return Ok(None);
+        }
+
+        match self.decode(src)? {
+            Some(item) => Ok(Some(item)),
+            // a close-delimited body ends with the connection
+            None if self.inner.payload.as_ref() == Some(&PayloadDecoder::eof()) => Ok(None),
+            // nothing was owed after the head of a response that cannot have a body
+            None if self.inner.flags.contains(Flags::BODILESS_STATUS) => Ok(None),
+            // the connection ended before the framed end of the body
+            None => Err(PayloadError::Incomplete(None)),
+        }
     }
 }
 
